@@ -142,18 +142,23 @@ namespace
     }
     {
       // three-component tuple (as in control/stokes_3field.hpp: velocity, pressure, third field): the tuple mirror hands a
-      // running buffer offset from component to component - with two components the second offset is the only one
-      typedef LAFEM::TupleVector<SystemLevelType::LocalVeloVector, SystemLevelType::LocalPresVector, SystemLevelType::LocalPresVector> Vec3;
-      typedef LAFEM::TupleMirror<SystemLevelType::VeloMirror, SystemLevelType::PresMirror, SystemLevelType::PresMirror> Mir3;
+      // running buffer offset from component to component - with two components the second offset is the only one. The
+      // third field is a blocked one, so that a blocked component is gathered/scattered at a non-zero buffer offset
+      typedef LAFEM::TupleVector<SystemLevelType::LocalVeloVector, SystemLevelType::LocalPresVector, SystemLevelType::LocalVeloVector> Vec3;
+      typedef LAFEM::TupleMirror<SystemLevelType::VeloMirror, SystemLevelType::PresMirror, SystemLevelType::VeloMirror> Mir3;
       Global::Gate<Vec3, Mir3> gate3;
-      Control::Asm::build_gate_tuple(gate3, sys.gate_velo, sys.gate_pres, sys.gate_pres);
+      Control::Asm::build_gate_tuple(gate3, sys.gate_velo, sys.gate_pres, sys.gate_velo);
       Vec3 w0;
-      w0.template at<0>() = SystemLevelType::LocalVeloVector(nv); w0.template at<1>() = SystemLevelType::LocalPresVector(np); w0.template at<2>() = SystemLevelType::LocalPresVector(np);
-      for(Index d = 0; d < nv; ++d) { Tiny::Vector<double, 2> a; a[0] = h_int(out.vkeys[d], wrank, 20); a[1] = h_int(out.vkeys[d], wrank, 21); w0.template at<0>()(d, a); }
-      for(Index d = 0; d < np; ++d) { w0.template at<1>()(d, h_int(out.pkeys[d], wrank, 22)); w0.template at<2>()(d, h_int(out.pkeys[d], wrank, 23)); }
+      w0.template at<0>() = SystemLevelType::LocalVeloVector(nv); w0.template at<1>() = SystemLevelType::LocalPresVector(np); w0.template at<2>() = SystemLevelType::LocalVeloVector(nv);
+      for(Index d = 0; d < nv; ++d)
+      {
+        Tiny::Vector<double, 2> a, b; a[0] = h_int(out.vkeys[d], wrank, 20); a[1] = h_int(out.vkeys[d], wrank, 21); b[0] = h_int(out.vkeys[d], wrank, 23); b[1] = h_int(out.vkeys[d], wrank, 24);
+        w0.template at<0>()(d, a); w0.template at<2>()(d, b);
+      }
+      for(Index d = 0; d < np; ++d) w0.template at<1>()(d, h_int(out.pkeys[d], wrank, 22));
       gate3.sync_0(w0);
-      for(Index d = 0; d < nv; ++d) { out.t3_s0v.push_back(w0.template at<0>()(d)[0]); out.t3_s0v.push_back(w0.template at<0>()(d)[1]); }
-      for(Index d = 0; d < np; ++d) { out.t3_s0p.push_back(w0.template at<1>()(d)); out.t3_s0q.push_back(w0.template at<2>()(d)); }
+      for(Index d = 0; d < nv; ++d) { out.t3_s0v.push_back(w0.template at<0>()(d)[0]); out.t3_s0v.push_back(w0.template at<0>()(d)[1]); out.t3_s0q.push_back(w0.template at<2>()(d)[0]); out.t3_s0q.push_back(w0.template at<2>()(d)[1]); }
+      for(Index d = 0; d < np; ++d) out.t3_s0p.push_back(w0.template at<1>()(d));
     }
     GlobalSystemVector gx = sys.matrix_sys.create_vector_r(), gy = sys.matrix_sys.create_vector_r(), gr = sys.matrix_sys.create_vector_l();
     for(Index d = 0; d < nv; ++d)
@@ -199,7 +204,9 @@ namespace
         {
           double e0 = 0; for(int q : S) e0 += h_int(r.vkeys[d], q, int(c));
           if(r.s0v[2 * d + c] != e0) sim::fail("SYNC0", "tuple sync_0, velocity component: got " + std::to_string(r.s0v[2 * d + c]) + ", exact sum is " + std::to_string(e0));
-          { double e2 = 0; for(int q : S) e2 += h_int(r.vkeys[d], q, 20 + int(c)); if(r.t3_s0v[2 * d + c] != e2) sim::fail("SYNC0_TUPLE3", "sync_0 of a three-component tuple, first component: got " + std::to_string(r.t3_s0v[2 * d + c]) + ", exact sum is " + std::to_string(e2)); }
+          { double e2 = 0, e3 = 0; for(int q : S) { e2 += h_int(r.vkeys[d], q, 20 + int(c)); e3 += h_int(r.vkeys[d], q, 23 + int(c)); }
+            if(r.t3_s0v[2 * d + c] != e2) sim::fail("SYNC0_TUPLE3", "sync_0 of a three-component tuple, first component: got " + std::to_string(r.t3_s0v[2 * d + c]) + ", exact sum is " + std::to_string(e2));
+            if(r.t3_s0q[2 * d + c] != e3) sim::fail("SYNC0_TUPLE3", "sync_0 of a three-component tuple, third (blocked) component: got " + std::to_string(r.t3_s0q[2 * d + c]) + ", exact sum is " + std::to_string(e3)); }
           double e1 = g_val(r.vkeys[d], 3, int(c));
           if(!close(r.s1v[2 * d + c], e1, 4e-16 * double(S.size() + 1), std::abs(e1) + 1)) sim::fail("SYNC1", "tuple sync_1 changed a consistent velocity value");
           if(!close(r.fv[2 * d + c], 1.0 / double(S.size()), 1e-15, 1.0)) sim::fail("GATE_FREQS", "wrong velocity frequency in the system gate");
@@ -217,9 +224,8 @@ namespace
         double e0 = 0; for(int q : S) e0 += h_int(r.pkeys[d], q, 7);
         if(r.s0p[d] != e0) sim::fail("SYNC0", "tuple sync_0, pressure component: got " + std::to_string(r.s0p[d]) + ", exact sum is " + std::to_string(e0));
         {
-          double e2 = 0, e3 = 0; for(int q : S) { e2 += h_int(r.pkeys[d], q, 22); e3 += h_int(r.pkeys[d], q, 23); }
+          double e2 = 0; for(int q : S) e2 += h_int(r.pkeys[d], q, 22);
           if(r.t3_s0p[d] != e2) sim::fail("SYNC0_TUPLE3", "sync_0 of a three-component tuple, second component: got " + std::to_string(r.t3_s0p[d]) + ", exact sum is " + std::to_string(e2));
-          if(r.t3_s0q[d] != e3) sim::fail("SYNC0_TUPLE3", "sync_0 of a three-component tuple, third component: got " + std::to_string(r.t3_s0q[d]) + ", exact sum is " + std::to_string(e3));
         }
         double e1 = g_val(r.pkeys[d], 3, 7);
         if(!close(r.s1p[d], e1, 4e-16 * double(S.size() + 1), std::abs(e1) + 1)) sim::fail("SYNC1", "tuple sync_1 changed a consistent pressure value");
